@@ -12,16 +12,17 @@ CLAIM_TEXT = ("Theorems (coq/Props/C02.v, no axioms), for EVERY byte string and 
               "C02_datagram_framing; C02_unchecked_refuted shows the unguarded form panics); do_receive never indexes an empty Via list "
               "(C02_top_via); the socket's receive task survives every packet sequence and handles each packet as if it came alone "
               "(C02_listener_survives, C02_valid_after_hostile); the stream decoder behind the FramedRead loop never panics and every "
-              "decode call stops or consumes a byte (C02_stream_total); the decoder's second pass over every well-formed frame stops at the first "
-              "pass's head end and its body slice is in bounds, because the source slices with the saved length - the form that decodes it again "
-              "from the headers is shown to panic (C02_second_pass_in_bounds, C02_stream_body_len_saved, C02_second_pass_unsaved_refuted); peer-fed counters stay in range (C02_cseq_limit, "
+              "decode call stops or consumes a byte (C02_stream_total); the decoder's second pass never slices outside a frame - for every byte stream in every segmentation "
+              "(C02_stream_second_pass_total, by a run invariant: the saved offset and Content-Length stay a sound summary of the buffer) - "
+              "and on well-formed frames it returns exactly the body, because the source slices with the saved length; the form that decodes it "
+              "again from the headers is shown to panic (C02_second_pass_in_bounds, C02_stream_body_len_saved, C02_second_pass_unsaved_refuted); peer-fed counters stay in range (C02_cseq_limit, "
               "C02_session_timer_defined). The two guards are read from the source by the translator on every run (C02_guards_present). "
               "Correspondence/search: grammar-derived, mutated, truncated and random byte strings with extreme numerics through parse_complete "
               "(debug, and release in the thorough tier), through StreamingDecoder+FramedRead in random segmentations, through every typed "
               "header decoder, through REAL UDP and TCP listeners on loopback (each hostile packet followed by a valid OPTIONS that must be "
               "answered) and through the dialog/invite layers (hostile Session-Expires/Min-SE/CSeq/RAck values, then a probe).")
-CLAIM_NOTE = ("PARTIAL: panic-freedom of the nom typed-header parsers, BytesStr::from_parse containment, the second-pass body slice for hostile (not well-formed) frames of the "
-              "stream decoder (assumed to see the head end of the first pass), tokio and allocation failure are not proved -- they are only "
+CLAIM_NOTE = ("PARTIAL: panic-freedom of the nom typed-header parsers, BytesStr::from_parse containment, "
+              "tokio and allocation failure are not proved -- they are only "
               "exercised by the hostile streams (oracle: no panic, no hang, probes answered). MessageLine::parse is abstracted in the model "
               "(the harness reports its verdict per datagram).")
 TRUSTED = [
@@ -32,15 +33,13 @@ TRUSTED = [
 ]
 ASSUMPTIONS = [
     "a panic inside a task spawned per message (Endpoint::receive) does not end the transport's receive task; a panic inside handle_msg does (tokio task semantics)",
-    "for frames that are not well-formed messages the second pass of StreamingDecoder::decode is assumed to find the head end of the first pass (proved for well-formed ones, compared for all generated ones)",
     "loopback networking is available to the check (UDP/TCP on 127.0.0.1)",
 ]
 RULE = ("datagrams: valid messages x hostile Content-Length/CSeq/Session-Expires/... values (0, len-1, len, len+1, 2^16, 2^31, 2^32, 2^63, "
         "2^64-1-k, 2^64-1, 2^64, 10^30, signs, blanks, junk), every truncation of a valid message, leading CR/LF runs, lone CR, LF-only, "
         "invalid UTF-8, NUL, STUN-like first bytes, byte-level mutations and random bytes; the same strings as streams cut at random; typed "
         "header values; listener sequences; UA scenarios. non-trivial = input reaches the SIP parser and is not a plain valid message")
-PARTIAL = ["nom typed-header parsers / BytesStr containment / tokio internals are exercised, not proved",
-           "second-pass head end / body slice of the stream decoder: proved for well-formed frames, compared (model second_pass vs implementation) for hostile ones"]
+PARTIAL = ["nom typed-header parsers / BytesStr containment / tokio internals are exercised, not proved"]
 
 CRLF = b"\r\n"
 U64 = 2 ** 64
